@@ -427,8 +427,10 @@ def job_record(k_extra, directio, nblocks, bpf, nant, template, prior=None):
                 problems.append(f"reader raised {type(e).__name__}: {e}")
         if total != nblocks:
             problems.append(f"{total} blocks recorded, {nblocks} requested")
-        if pkt != [1000 + i * be.samples_per_block for i in range(len(pkt))]:
-            problems.append(f"PKTIDX sequence {pkt[:4]}")
+        # spectra per block from the block geometry itself (BLOCSIZE over channels x antennas x bytes per time sample)
+        spb_spec = be.block_size // (be.num_antennas * be.num_chans * (2 * be.num_pols * be.num_bits // 8))
+        if pkt != [1000 + i * spb_spec for i in range(len(pkt))]:
+            problems.append(f"PKTIDX sequence {pkt[:4]} (a block holds {spb_spec} spectra)")
         # whatever order the file system lists the files in
         try:
             for perm in (itertools.permutations(names) if names else []):
@@ -569,8 +571,9 @@ def replay_record(p):
         for fn in files:
             bl, _e = parse_file(list(open(os.path.join(d, fn), 'rb').read()))
             pk += [int(h_['PKTIDX']) for h_ in (bl or [])]
-        if pk != [1000 + i * be.samples_per_block for i in range(len(pk))]:
-            msgs.append(f"PKTIDX sequence over the recording {pk}, expected steps of {be.samples_per_block} from 1000")
+        spb_spec = be.block_size // (nant * 2 * (2 * 2 * 8 // 8))          # channels x antennas x bytes per time sample (2 pols, 8 bit)
+        if pk != [1000 + i * spb_spec for i in range(len(pk))]:
+            msgs.append(f"PKTIDX sequence over the recording {pk}, expected steps of {spb_spec} (spectra per block) from 1000")
         import glob as _g
         for perm in itertools.permutations([os.path.join(d, f) for f in files]):
             orig = ru.glob.glob
